@@ -123,4 +123,219 @@ theorem binflexHelper_mem {base : AstMap} {L R : List AstMap} {m : AstMap} (h : 
     cases hm
     exact ⟨lm, hl, rm, hr, rfl, by simpa using hc⟩
 
+/-! ### what `deepPre` decides -/
+
+theorem isVar_false_of_isExp {cs : List Char} (h : isExpChars cs = true) : isVarChars cs = false := by
+  simp only [isExpChars, Bool.and_eq_true, decide_eq_true_eq] at h
+  match cs, h with
+  | [], h => by simp at h
+  | [_], h => by simp at h
+  | a :: b :: rest, h =>
+    have h2 := h.1.2
+    simp only [List.take_succ_cons, List.take_zero, List.cons.injEq, and_true] at h2
+    obtain ⟨rfl, rfl⟩ := h2
+    simp [isVarChars]
+
+theorem nameClass_of_isExp {n : String} (h : isExpChars n.toList = true) : nameClass n = .exp := by
+  simp [nameClass, isVar_false_of_isExp h, h]
+
+theorem nameClass_of_isWild {n : String} (h : isWildChars n.toList = true) : nameClass n = .wild := by
+  simp only [isWildChars, decide_eq_true_eq] at h
+  simp [nameClass, h, isVarChars, isExpChars, isWildChars]
+
+theorem isExp_of_nameClass {n : String} (h : nameClass n = .exp) : isExpChars n.toList = true := by
+  simp only [nameClass] at h
+  split at h
+  · cases h
+  · split at h
+    · assumption
+    · split at h <;> cases h
+
+theorem isWild_of_nameClass {n : String} (h : nameClass n = .wild) :
+    isWildChars n.toList = true ∧ isExpChars n.toList = false := by
+  simp only [nameClass] at h
+  split at h
+  · cases h
+  · split at h
+    · cases h
+    · rename_i h2
+      split at h
+      · exact ⟨by assumption, by simpa using h2⟩
+      · cases h
+
+def expMap (pp sp : Path) (name : String) : AstMap := { pairMap pp sp with exps := [(name, sp)] }
+
+theorem deepPre_done {cm : Bool} {pp sp : Path} {p s : T} {r : List AstMap}
+    (h : deepPre cm pp p sp s = .done r) : ∀ m ∈ r,
+      (m = pairMap pp sp ∧ role p = .wildcard) ∨
+      (∃ name, m = expMap pp sp name ∧ role p = .expPh name) := by
+  intro m hm
+  simp only [deepPre] at h
+  split at h
+  · rename_i hk
+    cases hc : nameClass (p.strAttr "id") with
+    | exp =>
+      simp only [hc] at h
+      split at h
+      · cases h
+        simp only [List.mem_singleton] at hm
+        exact Or.inr ⟨_, hm, role_ne_concrete_of_name_exp hk hc⟩
+      · cases h
+    | wild =>
+      simp only [hc] at h
+      split at h
+      · cases h
+        simp only [List.mem_singleton] at hm
+        exact Or.inl ⟨hm, role_of_name_wild hk hc⟩
+      · cases h
+    | var => simp only [hc] at h; cases h
+    | plain => simp only [hc] at h; cases h
+  · rename_i hnn
+    split at h
+    · split at h <;> cases h
+    · split at h
+      · rename_i hk
+        split at h
+        · cases h; cases hm
+        · cases hv : p.kids.head? with
+          | none => simp only [hv] at h; cases h
+          | some v =>
+            simp only [hv] at h
+            split at h
+            · rename_i hvk
+              split at h
+              · rename_i he
+                cases h
+                simp only [List.mem_singleton] at hm
+                refine Or.inr ⟨_, hm, ?_⟩
+                simp only [role, hk]
+                simp only [show ("Expr" : String) ≠ "Pass" from by decide,
+                  show ("Expr" : String) ≠ "Name" from by decide,
+                  show ("Expr" : String) ≠ "arg" from by decide, if_false, if_true, hv, hvk,
+                  nameClass_of_isExp he]
+              · split at h
+                · rename_i hw
+                  cases h
+                  simp only [List.mem_singleton] at hm
+                  refine Or.inl ⟨hm, ?_⟩
+                  simp only [role, hk]
+                  simp only [show ("Expr" : String) ≠ "Pass" from by decide,
+                    show ("Expr" : String) ≠ "Name" from by decide,
+                    show ("Expr" : String) ≠ "arg" from by decide, if_false, if_true, hv, hvk,
+                    nameClass_of_isWild hw]
+                · cases h
+            · cases h
+      · cases h
+
+theorem deepPre_generic {cm : Bool} {pp sp : Path} {p s : T} {ig : List String}
+    (h : deepPre cm pp p sp s = .generic ig) :
+    (ig = [] ∨ (ig = ["ctx"] ∧ p.kind = "Name")) ∧ flexOp p = false ∧
+      (∀ k, role p = .expPh k → p.kind = "Name") := by
+  simp only [deepPre] at h
+  split at h
+  · rename_i hk
+    have hig : ig = ["ctx"] := by
+      cases hc : nameClass (p.strAttr "id") <;> simp only [hc] at h
+      · cases h; rfl
+      · split at h <;> cases h; rfl
+      · split at h <;> cases h; rfl
+      · cases h; rfl
+    refine ⟨Or.inr ⟨hig, hk⟩, ?_, fun _ _ => hk⟩
+    simp [flexOp, hk]
+  · rename_i hnn
+    split at h
+    · rename_i hk
+      split at h
+      · cases h
+      · rename_i hop
+        cases h
+        refine ⟨Or.inl rfl, ?_, ?_⟩
+        · simp only [flexOp, hk, decide_true, Bool.true_and]
+          simpa using hop
+        · intro k hr
+          exact absurd hr (role_not_exp_of_kind hnn (by rw [hk]; decide) k)
+    · rename_i hnb
+      split at h
+      · rename_i hk
+        split at h
+        · cases h
+        · rename_i hmm
+          have hflex : flexOp p = false := by simp [flexOp, hnb]
+          cases hv : p.kids.head? with
+          | none =>
+            simp only [hv] at h; cases h
+            refine ⟨Or.inl rfl, hflex, ?_⟩
+            intro k hr
+            simp only [role, hk] at hr
+            simp only [show ("Expr" : String) ≠ "Pass" from by decide,
+              show ("Expr" : String) ≠ "Name" from by decide,
+              show ("Expr" : String) ≠ "arg" from by decide, if_false, if_true, hv] at hr
+            cases hr
+          | some v =>
+            simp only [hv] at h
+            have hrole : ∀ k, role p = .expPh k → v.kind = "Name" ∧ nameClass (v.strAttr "id") = .exp := by
+              intro k hr
+              simp only [role, hk] at hr
+              simp only [show ("Expr" : String) ≠ "Pass" from by decide,
+                show ("Expr" : String) ≠ "Name" from by decide,
+                show ("Expr" : String) ≠ "arg" from by decide, if_false, if_true, hv] at hr
+              split at hr
+              · rename_i hvk
+                refine ⟨hvk, ?_⟩
+                cases hc : nameClass (v.strAttr "id") <;> simp only [hc] at hr <;> first | rfl | cases hr
+              · cases hr
+            split at h
+            · rename_i hvk
+              split at h
+              · cases h
+              · rename_i hne
+                split at h
+                · cases h
+                · cases h
+                  refine ⟨Or.inl rfl, hflex, ?_⟩
+                  intro k hr
+                  exfalso
+                  exact hne (isExp_of_nameClass (hrole k hr).2)
+            · rename_i hvk
+              cases h
+              refine ⟨Or.inl rfl, hflex, ?_⟩
+              intro k hr
+              exact absurd (hrole k hr).1 hvk
+      · rename_i hne
+        cases h
+        refine ⟨Or.inl rfl, by simp [flexOp, hnb], ?_⟩
+        intro k hr
+        exact absurd hr (role_not_exp_of_kind hnn hne k)
+
+theorem deepPre_binflex {cm : Bool} {pp sp : Path} {p s : T}
+    (h : deepPre cm pp p sp s = .binflex) : p.kind = "BinOp" ∧ flexOp p = true := by
+  simp only [deepPre] at h
+  split at h
+  · cases hc : nameClass (p.strAttr "id") <;> simp only [hc] at h
+    · cases h
+    · split at h <;> cases h
+    · split at h <;> cases h
+    · cases h
+  · split at h
+    · rename_i hk
+      split at h
+      · rename_i hop
+        refine ⟨hk, ?_⟩
+        simp only [flexOp, hk, decide_true, Bool.true_and]
+        simpa using hop
+      · cases h
+    · split at h
+      · split at h
+        · cases h
+        · cases hv : p.kids.head? with
+          | none => simp only [hv] at h; cases h
+          | some v =>
+            simp only [hv] at h
+            split at h
+            · split at h
+              · cases h
+              · split at h <;> cases h
+            · cases h
+      · cases h
+
 end Pedal.Cait
